@@ -5,6 +5,7 @@ import FV.Props.C07
 import FV.Proofs.Stog
 import FV.Model.Alloc
 import FV.Props.C01
+import FV.Proofs.SatProc
 /-
   C20 — results do not depend on what the process did before.
 
@@ -320,6 +321,70 @@ theorem die_verdict_any_history (sqrt : α → α) (doc : YV α) (fixed : List (
   obtain ⟨o, e, t, _⟩ := FV.C01.die_complete_inherited sqrt st doc fixed inp hp εmax h0 hle ha hv picks hacc
   exact ⟨o, _, _, e, t⟩
 
+/-! #### the die verdict after a HISTORY (states reachable by `runHistory`, not arbitrary tolerance states) -/
+
+/-- the class-wide pair `Die.__init__` finds, for a tolerance state of the process model -/
+def dieState (g : GEps α) : Option (α × α) := g.map fun e => (e.dist, e.area)
+
+/-- after a history of designs the die constructor works with the tolerance `probeEps` says: the first proposal of the
+    history, or its own proposal `min(W, H) * 10e-12` in a fresh process -/
+theorem mkEps_after_history (sqrt : α → α) (hist : List α) (W H : α) :
+    (mkEps sqrt (dieState (runHistory sqrt none hist)) W H).1.d = (probeEps sqrt hist (pyMin W H * tenEm11)).dist ∧
+    (mkEps sqrt (dieState (runHistory sqrt none hist)) W H).1.a = (probeEps sqrt hist (pyMin W H * tenEm11)).area := by
+  rw [runHistory_fresh]
+  cases hist with
+  | nil => exact ⟨rfl, rfl⟩
+  | cons d ds => exact ⟨rfl, rfl⟩
+
+/-- the three side conditions the C01 theorems ask of a tolerance state hold for every state a history can leave, as soon
+    as every proposal of the history (and the die's own) lies in `[0, εmax]` and `sqrt` is non-negative there -/
+theorem history_state_ok (sqrt : α → α) (hsq : ∀ x, 0 ≤ x → 0 ≤ sqrt x) (hist : List α) (W H εmax : α)
+    (hh : ∀ d ∈ hist, 0 ≤ d ∧ d ≤ εmax) (hown : 0 ≤ pyMin W H * tenEm11 ∧ pyMin W H * tenEm11 ≤ εmax) :
+    0 ≤ (mkEps sqrt (dieState (runHistory sqrt none hist)) W H).1.d ∧
+    (mkEps sqrt (dieState (runHistory sqrt none hist)) W H).1.d ≤ εmax ∧
+    0 ≤ (mkEps sqrt (dieState (runHistory sqrt none hist)) W H).1.a := by
+  obtain ⟨e1, e2⟩ := mkEps_after_history sqrt hist W H
+  rw [e1, e2]
+  cases hist with
+  | nil => exact ⟨hown.1, hown.2, hsq _ hown.1⟩
+  | cons d ds =>
+    have := hh d (List.mem_cons_self ..)
+    exact ⟨this.1, this.2, hsq _ this.1⟩
+
+/-- **die_verdict_after_history**: `die_verdict_any_history` for the states that histories actually produce.  After ANY
+    sequence of designs whose proposed tolerances lie in `[0, εmax]` (for designs within ×1000 in scale: `εmax` =
+    1000 × the die's own proposal), a description valid at `εmax` is accepted with an exact tiling. -/
+theorem die_verdict_after_history (sqrt : α → α) (hsq : ∀ x, 0 ≤ x → 0 ≤ sqrt x) (doc : YV α) (fixed : List (Rect α))
+    (inp : DieIn α) (hp : parseDie doc = .ok inp) (εmax : α) (hv : ValidDie εmax inp fixed)
+    (hist : List α) (hh : ∀ d ∈ hist, 0 ≤ d ∧ d ≤ εmax)
+    (hown : 0 ≤ pyMin inp.W inp.H * tenEm11 ∧ pyMin inp.W inp.H * tenEm11 ≤ εmax) (picks : List IRect)
+    (hacc : coverAccept ((gridOf (mkEps sqrt (dieState (runHistory sqrt none hist)) inp.W inp.H).1 inp fixed).2.length - 1)
+      ((gridOf (mkEps sqrt (dieState (runHistory sqrt none hist)) inp.W inp.H).1 inp fixed).1.length - 1)
+      (occ (gridOf (mkEps sqrt (dieState (runHistory sqrt none hist)) inp.W inp.H).1 inp fixed).1
+        (gridOf (mkEps sqrt (dieState (runHistory sqrt none hist)) inp.W inp.H).1 inp fixed).2 (occRects inp fixed)) picks = true) :
+    ∃ out e s, dieModel sqrt (dieState (runHistory sqrt none hist)) doc fixed (some picks) = .ok (out, e, s) ∧
+      ExactTiling out := by
+  obtain ⟨h0, hle, ha⟩ := history_state_ok sqrt hsq hist inp.W inp.H εmax hh hown
+  exact die_verdict_any_history sqrt doc fixed inp hp εmax hv _ h0 hle ha picks hacc
+
+/-- **same decomposition after any two histories** (in particular: after any history and in a fresh process, `hist' = []`):
+    the constructor returns under both and reports the SAME regions. -/
+theorem die_decomposition_after_histories (sqrt : α → α) (hsq : ∀ x, 0 ≤ x → 0 ≤ sqrt x) (doc : YV α)
+    (fixed : List (Rect α)) (inp : DieIn α) (hp : parseDie doc = .ok inp) (εmax : α) (hv : ValidDie εmax inp fixed)
+    (hist hist' : List α) (hh : ∀ d ∈ hist, 0 ≤ d ∧ d ≤ εmax) (hh' : ∀ d ∈ hist', 0 ≤ d ∧ d ≤ εmax)
+    (hown : 0 ≤ pyMin inp.W inp.H * tenEm11 ∧ pyMin inp.W inp.H * tenEm11 ≤ εmax) :
+    ∃ out e s e' s', dieModel sqrt (dieState (runHistory sqrt none hist)) doc fixed none = .ok (out, e, s) ∧
+      dieModel sqrt (dieState (runHistory sqrt none hist')) doc fixed none = .ok (out, e', s') ∧ ExactTiling out :=
+  die_decomposition_history_indep sqrt _ _ doc fixed inp hp εmax hv
+    (history_state_ok sqrt hsq hist inp.W inp.H εmax hh hown) (history_state_ok sqrt hsq hist' inp.W inp.H εmax hh' hown)
+
+/-- the duplicate-removal loop of `Die.gather_boundaries` itself (`Die.dedupe`) is insensitive to the tolerance on robust
+    coordinate lists (`uniqEps_insensitive` carried over by `uniqEps_eq_dedupe`). -/
+theorem dedupe_insensitive (lo hi ε ε' : α) (h : lo ≤ ε ∧ ε ≤ hi) (h' : lo ≤ ε' ∧ ε' ≤ hi) (l : List α)
+    (hr : ∀ u ∈ l, ∀ v ∈ l, v - u ≤ lo ∨ hi < v - u) : FV.Die.dedupe ε none l = FV.Die.dedupe ε' none l := by
+  rw [← uniqEps_eq_dedupe, ← uniqEps_eq_dedupe]
+  exact uniqEps_insensitive lo hi ε ε' h h' l hr
+
 /-! applied: `die7` of the repository's tests with its netlist, fresh process vs an inherited tolerance `1/1000`
     (seven orders of magnitude above the die's own `9e-11`): same decomposition. -/
 private def doc7 : YV ℚ := .map [("width", .num 10), ("height", .num 9),
@@ -343,12 +408,58 @@ example : ∃ out e s e' s', dieModel (fun _ => (1 : ℚ)) none doc7 fixed7 none
       · unfold Die.Sep; decide +kernel)
     ⟨by decide +kernel, by decide +kernel, by decide +kernel⟩ ⟨by decide +kernel, by decide +kernel, by decide +kernel⟩
 
+/-- `die_decomposition_after_histories` applied to `die7`: a history of three designs proposing `1/2000`, `1/5`, `3`
+    (only the first one counts — it is the one that sticks) vs the fresh process. -/
+example : ∃ out e s e' s',
+    dieModel (fun _ => (1 : ℚ)) (dieState (runHistory (fun _ => (1 : ℚ)) none [1/2000, 1/1000, 0])) doc7 fixed7 none = .ok (out, e, s) ∧
+    dieModel (fun _ => (1 : ℚ)) (dieState (runHistory (fun _ => (1 : ℚ)) none [])) doc7 fixed7 none = .ok (out, e', s') ∧
+    ExactTiling out :=
+  die_decomposition_after_histories (fun _ => (1 : ℚ)) (fun _ _ => by norm_num) doc7 fixed7 inp7 (by with_unfolding_all rfl) (1/1000)
+    (by
+      constructor
+      · decide +kernel
+      · decide +kernel
+      · decide +kernel
+      · unfold Die.Sep; decide +kernel
+      · unfold Die.Sep; decide +kernel)
+    [1/2000, 1/1000, 0] []
+    (by intro d hd; simp only [List.mem_cons, List.mem_nil_iff, or_false] at hd; rcases hd with rfl | rfl | rfl <;> norm_num)
+    (by intro d hd; simp at hd)
+    ⟨by decide +kernel, by decide +kernel⟩
+
+/-- `die_verdict_after_history` applied to `die7` after a history of two designs proposing `1/2000` and `1/1000`, with a
+    pick trace admissible on the grid that state produces (`C01.cover_exists`: one always exists). -/
+example : ∃ picks out e s, dieModel (fun _ => (1 : ℚ)) (dieState (runHistory (fun _ => (1 : ℚ)) none [1/2000, 1/1000])) doc7 fixed7
+      (some picks) = .ok (out, e, s) ∧ ExactTiling out := by
+  obtain ⟨picks, hacc⟩ := FV.C01.cover_exists
+    ((gridOf (mkEps (fun _ => (1 : ℚ)) (dieState (runHistory (fun _ => (1 : ℚ)) none [1/2000, 1/1000])) inp7.W inp7.H).1 inp7 fixed7).2.length - 1)
+    ((gridOf (mkEps (fun _ => (1 : ℚ)) (dieState (runHistory (fun _ => (1 : ℚ)) none [1/2000, 1/1000])) inp7.W inp7.H).1 inp7 fixed7).1.length - 1)
+    (occ (gridOf (mkEps (fun _ => (1 : ℚ)) (dieState (runHistory (fun _ => (1 : ℚ)) none [1/2000, 1/1000])) inp7.W inp7.H).1 inp7 fixed7).1
+      (gridOf (mkEps (fun _ => (1 : ℚ)) (dieState (runHistory (fun _ => (1 : ℚ)) none [1/2000, 1/1000])) inp7.W inp7.H).1 inp7 fixed7).2
+      (occRects inp7 fixed7))
+  exact ⟨picks, die_verdict_after_history (fun _ => (1 : ℚ)) (fun _ _ => by norm_num) doc7 fixed7 inp7 (by with_unfolding_all rfl) (1/1000)
+    (by
+      constructor
+      · decide +kernel
+      · decide +kernel
+      · decide +kernel
+      · unfold Die.Sep; decide +kernel
+      · unfold Die.Sep; decide +kernel)
+    [1/2000, 1/1000]
+    (by intro d hd; simp only [List.mem_cons, List.mem_nil_iff, or_false] at hd; rcases hd with rfl | rfl <;> norm_num)
+    ⟨by decide +kernel, by decide +kernel⟩ picks hacc⟩
+
+/-- `dedupe_insensitive` applied: the x boundaries of `die7` with its fixed rectangles (a duplicate at 5, at 7 and at 9). -/
+example : FV.Die.dedupe (9/100000000000 : ℚ) none [0, 1, 3, 5, 5, 7, 7, 9, 9, 10] =
+    FV.Die.dedupe (1/1000) none [0, 1, 3, 5, 5, 7, 7, 9, 9, 10] :=
+  dedupe_insensitive (9/100000000000) (1/1000) _ _ (by norm_num) (by norm_num) _ (by decide +kernel)
+
 end die
 
 /-! ### the process-wide ROBDD store (second piece of surviving state) -/
 
 section store
-open FV.PB FV.Sat
+open FV.PB FV.Sat FV.Proc
 
 /-- **constraint encoding is history independent**: whatever inequalities earlier managers of the process encoded
     (histories `h`, `h'` of `getrobdd` calls growing the shared store — including none), a fresh manager that is posted
@@ -364,6 +475,133 @@ theorem encoding_history_indep (h h' : List (Ineq Var × Bool))
     (∃ τ, (∀ v, isUser v → τ v = σ v) ∧ cnfTrue τ m2.clauses) := by
   rw [FV.C07.post_history_exact (FV.C07.store_history_wf h hpos).1 r hps σ,
     FV.C07.post_history_exact (FV.C07.store_history_wf h' hpos').1 r' hps σ]
+
+/-! #### the whole interpreter: several managers alive at once, operations interleaved, one store
+
+  `FV.Proc.SatProc` (Model/SatProc.lean) threads `pseudobool.memory / mmap` through the operations of ANY number of
+  `SATManager` objects.  The theorems below quantify over every interleaved history of postings, `newvar` and `solve`
+  calls of all managers (refused operations included). -/
+
+/-- **No manager's encoding depends on what any OTHER manager did before or in between.**  After an arbitrary
+    interleaved history of the process, the clause set of manager `i` restricts the user variables to exactly the
+    assignments that satisfy the encodable constraints manager `i` itself was handed (`ownPosts i ops` — a function of
+    the operation list alone, no process state in it). -/
+theorem sat_process_exact (n : Nat) (ops : List SatOp) (hwf : ∀ op ∈ ops, op.WF) (i : Nat) (m : Mgr)
+    (hm : ((SatProc.init n).run ops).mgrs[i]? = some m) (σ : Var → Bool) :
+    (∃ τ, (∀ v, isUser v → τ v = σ v) ∧ cnfTrue τ m.clauses) ↔ ∀ p ∈ ownPosts i ops, p.holds σ := by
+  have inv : MInv ((SatProc.init n).run ops).store m (ownPosts i ops) := by
+    simpa using (pinv_run ops _ _ (pinv_init n) hwf).minv i m hm
+  have hpw : ∀ p ∈ ownPosts i ops, p.WF := by
+    clear hm inv
+    induction ops with
+    | nil => intro p hp; simp [ownPosts] at hp
+    | cons op r ih =>
+      intro p hp
+      have ihr := ih (fun o ho => hwf o (by simp [ho]))
+      cases op with
+      | newvar j v => exact ihr p (by simpa [ownPosts] using hp)
+      | solve j ans => exact ihr p (by simpa [ownPosts] using hp)
+      | post j q =>
+        simp only [ownPosts] at hp
+        split at hp
+        · rcases List.mem_cons.1 hp with rfl | h
+          · exact hwf (.post j p) (by simp)
+          · exact ihr p h
+        · exact ihr p hp
+  constructor
+  · rintro ⟨τ, hag, hτ⟩ p hp
+    exact (holds_congr (hpw p hp) hag).1 (inv.sound τ hτ p hp)
+  · intro hσ
+    obtain ⟨τ, h1, _, h3⟩ := inv.complete σ hσ
+    exact ⟨τ, h1, h3⟩
+
+/-- the shared store stays well formed and append-only through every interleaved history -/
+theorem sat_process_store (n : Nat) (ops : List SatOp) (hwf : ∀ op ∈ ops, op.WF) :
+    WFStore ((SatProc.init n).run ops).store ∧ (Store.init : Store Var).le ((SatProc.init n).run ops).store :=
+  ⟨(pinv_run ops _ _ (pinv_init n) hwf).wf, (pinv_run ops _ _ (pinv_init n) hwf).le0⟩
+
+/-- **the accept / refuse verdict is history independent**: after any interleaved history, manager `i` accepts a
+    well-formed constraint iff it is `acceptable` — a property of the constraint alone (chain width ≥ 3; an inequality
+    that is a clause, a tautology, or normalises to `>=`). -/
+theorem sat_verdict_history_indep (n : Nat) (ops : List SatOp) (hwf : ∀ op ∈ ops, op.WF) (i : Nat) (hi : i < n)
+    (p : Post) (hp : p.WF) : (((SatProc.init n).run ops).step (.post i p)).2 = acceptable p := by
+  have hlen : ((SatProc.init n).run ops).mgrs.length = n := by simp [run_length, SatProc.init]
+  have hlt : i < ((SatProc.init n).run ops).mgrs.length := by omega
+  have hm : ((SatProc.init n).run ops).mgrs[i]? = some (((SatProc.init n).run ops).mgrs[i]) := List.getElem?_eq_getElem hlt
+  have inv := (pinv_run ops _ _ (pinv_init n) hwf).minv i _ hm
+  simp only [SatProc.step, hm]
+  cases hr : Mgr.post (((SatProc.init n).run ops).mgrs[i]) ((SatProc.init n).run ops).store p with
+  | ok r =>
+    obtain ⟨m', S'⟩ := r
+    exact ((post_ok_iff_acceptable inv p hp).1 ⟨m', S', hr⟩).symm
+  | error e =>
+    cases ha : acceptable p with
+    | false => rfl
+    | true =>
+      obtain ⟨m', S', hok⟩ := (post_ok_iff_acceptable inv p hp).2 ha
+      rw [hok] at hr; simp at hr
+
+/-- **constraint encoding is the same whether first or after arbitrary operations of OTHER managers.**  `hist`, `hist'`
+    are any two interleaved histories of the process in which manager `i` was handed no encodable constraint (it may
+    have registered variables; every other manager may have done anything, also while the probe runs: `probe` is again an
+    arbitrary interleaving); `hist' = []` is the fresh interpreter.  The clause sets manager `i` ends with admit exactly
+    the same assignments of the user variables. -/
+theorem encoding_multi_manager_history_indep (n : Nat) (hist hist' probe : List SatOp)
+    (hh : ∀ op ∈ hist, op.WF) (hh' : ∀ op ∈ hist', op.WF) (hpr : ∀ op ∈ probe, op.WF) (i : Nat)
+    (hi : ownPosts i hist = []) (hi' : ownPosts i hist' = []) (m m' : Mgr)
+    (hm : ((SatProc.init n).run (hist ++ probe)).mgrs[i]? = some m)
+    (hm' : ((SatProc.init n).run (hist' ++ probe)).mgrs[i]? = some m') (σ : Var → Bool) :
+    (∃ τ, (∀ v, isUser v → τ v = σ v) ∧ cnfTrue τ m.clauses) ↔
+    (∃ τ, (∀ v, isUser v → τ v = σ v) ∧ cnfTrue τ m'.clauses) := by
+  have w1 : ∀ op ∈ hist ++ probe, op.WF := by
+    intro op ho; rcases List.mem_append.1 ho with h | h; exact hh op h; exact hpr op h
+  have w2 : ∀ op ∈ hist' ++ probe, op.WF := by
+    intro op ho; rcases List.mem_append.1 ho with h | h; exact hh' op h; exact hpr op h
+  rw [sat_process_exact n _ w1 i m hm σ, sat_process_exact n _ w2 i m' hm' σ, ownPosts_append, ownPosts_append, hi, hi']
+
+/-! applied: two managers of one interpreter.  Manager 1 encodes `2x + 3y + 2¬z ≥ 4` with coefficient decomposition,
+    then manager 0 encodes the same inequality with the plain construction (it reuses the four store nodes manager 1 made), manager 1 is
+    refused a chain of width 2, manager 0 adds the clause `x`, manager 1 a pairwise at-most-one. -/
+def demoOps : List SatOp :=
+  [.newvar 0 (.user "def_x"), .post 1 (.pb FV.C07.q1 true), .post 0 (.pb FV.C07.q1 false),
+   .post 1 (.amoH 2 [FV.C07.x, FV.C07.y]), .post 0 (.clause [FV.C07.x]), .post 1 (.amoQ [FV.C07.x, FV.C07.y]),
+   .solve 0 none]
+
+theorem demoOps_wf : ∀ op ∈ demoOps, op.WF := by
+  intro op ho
+  simp only [demoOps, List.mem_cons, List.mem_nil_iff, or_false] at ho
+  rcases ho with rfl | rfl | rfl | rfl | rfl | rfl | rfl
+  · trivial
+  · exact FV.C07.Scenario.q1_wf true
+  · exact FV.C07.Scenario.q1_wf false
+  · intro l hl
+    simp only [List.mem_cons, List.mem_nil_iff, or_false] at hl
+    rcases hl with rfl | rfl <;> trivial
+  · intro l hl
+    simp only [List.mem_cons, List.mem_nil_iff, or_false] at hl
+    subst hl; trivial
+  · intro l hl
+    simp only [List.mem_cons, List.mem_nil_iff, or_false] at hl
+    rcases hl with rfl | rfl <;> trivial
+  · trivial
+
+/-- what the run does (kernel-evaluated): verdicts, store size, clause counts of both managers, constraints counted -/
+example : SatProc.verdicts (SatProc.init 2) demoOps = [true, true, true, false, true, true, true] ∧
+    ((SatProc.init 2).run demoOps).store.memory.length = 6 ∧
+    ((SatProc.init 2).run demoOps).mgrs.map (·.clauses.length) = [12, 12] ∧
+    (ownPosts 0 demoOps).length = 2 ∧ (ownPosts 1 demoOps).length = 2 := by decide +kernel
+
+/-- `sat_process_exact` applied to it: whatever manager 1 did in between, manager 0's clause set admits exactly the
+    assignments with `2x + 3y + 2¬z ≥ 4` and `x`. -/
+example (m : Mgr) (hm : ((SatProc.init 2).run demoOps).mgrs[0]? = some m) (σ : Var → Bool) :
+    (∃ τ, (∀ v, isUser v → τ v = σ v) ∧ cnfTrue τ m.clauses) ↔
+    (FV.C07.q1.holds σ ∧ clauseTrue σ [FV.C07.x] = true) := by
+  rw [sat_process_exact 2 demoOps demoOps_wf 0 m hm σ]
+  have : ownPosts 0 demoOps = [.pb FV.C07.q1 false, .clause [FV.C07.x]] := by
+    simp [demoOps, ownPosts, acceptable]
+    decide
+  rw [this]
+  simp [Post.holds]
 
 end store
 
